@@ -16,6 +16,7 @@ RULE_MODULES: Dict[str, str] = {
     "R19": "r19_cyclegate",
     "R20": "r20_connect",
     "R22": "r22_classify",
+    "R24": "r24_helpers",
     "R11": "r11_reply",
 }
 
